@@ -444,6 +444,16 @@ impl Prop for C10 {
                 }
                 let at = attempts(fam, case.unit, &x.log, malformed);
                 let mut bad: Option<(String, String)> = judge_attempts(&at, r);
+                // a re-attempt is the same request again: every attempt of the unit opens with the same bytes
+                {
+                    let opens: Vec<&Vec<u8>> = x.log.iter().filter_map(|e| match e {
+                        WireEvent::Send { bytes, .. } if unit_of(fam, bytes) == case.unit && starts_attempt(fam, bytes) => Some(bytes),
+                        _ => None,
+                    }).collect();
+                    if let Some(d) = opens.iter().find(|d| **d != opens[0]) {
+                        bad = Some(("re-attempt-is-another-request".into(), format!("first attempt sent {}, a later one {}", crate::vnet::hex(opens[0]), crate::vnet::hex(d))));
+                    }
+                }
                 if bad.is_none() {
                     match at.last() {
                         None => {}
